@@ -1,6 +1,3 @@
 package main
 
-func factsTables(o *out, res, mgr pkgFiles)  {}
-func factsManager(o *out, mgr pkgFiles)      {}
-func factsClient(o *out, mgr pkgFiles)       {}
 func factsDecoders(o *out, res pkgFiles)     {}
